@@ -23,9 +23,18 @@ def run(chk):
         chk.finding("Window:model:" + r.violation, {"stage": "MC", "counterexample": r.cex})
     else:
         chk.add_tlc("MC_Window_quick.cfg", r, {"what": "Window: Deserialize(Serialize(w)) reads like w, capacities 0..24,127,128, every phase"})
+    # restore before EVERY call on every stream of length n+3 over {-1,-0,+0,1} (order patterns, signed zeros): SMM's
+    # hand-written Deserialize and the derived ones of the other selection / detector methods (direction A)
+    sel = ["Highest", "Lowest", "HighestLowestDelta", "HighestIndex", "LowestIndex", "SMM"]
+    jobs = [dict(subjects=[s], pmax=255, inits="ZeroOnly", lens="L1to3", ranks="R3z", negzero=True, depth=5 if quick else 6,
+                 first=False) for s in sel]
+    jobs += [dict(subjects=[s], pmax=255, inits="ZeroOne", lens="L1to2", ranks="R3", negzero=False, depth=6 if quick else 9,
+                  first=True) for s in ["UpperReversalSignal", "LowerReversalSignal", "ReversalSignal"]]
+    ft = background(tokfam.emit_replay, chk, yv, "c13tok", jobs, 6, True)
     # snapshot / clone at every position of a stream, all subjects (direction A)
     progs = apifam.programs(chk, "Api_snap.cfg", simulate=250 if quick else 2500, depth=12, cap=250 if quick else 2500)
     apifam.replay(chk, yv, "c13", progs, mode="snap")
     fb.result()
+    ft.result()
     chk.assumptions += ["snapshots go through serde_json (self-describing text) with its float_roundtrip feature, i.e. a lossless carrier",
                         "restored and original instances are compared through their future outputs (bit patterns), never through private state"]
